@@ -554,6 +554,12 @@ def run_unit(name, tier='quick', keep=False, rebaseline=False):
             if f is None or ob is None:
                 undecided.append(d)
                 continue
+            if f.region is not None and f.region.info.get('match_guards_left'):
+                # known imprecision of the installed Verus (probed): a guarded match arm that mutates the matched place
+                # loses the frame; a failure in such a function is not trusted as a violation
+                d = dict(d, message='(function contains a match guard that rule R29 could not desugar: known Verus imprecision) ' + d.get('message', ''))
+                undecided.append(d)
+                continue
             failures.append(dict(obligation=ob, fn=f.name, kind=kind, message=d.get('message'), props=props or f.props,
                                  gen_line=pl, gen_text=glines[pl - 1].strip() if pl - 1 < len(glines) else '',
                                  clause=clause_text, callee=callee, rendered=d.get('rendered', ''),
@@ -595,20 +601,49 @@ def run_unit(name, tier='quick', keep=False, rebaseline=False):
                 return res
             os.makedirs(BASELINE, exist_ok=True)
             with open(bpath, 'w') as f:
-                json.dump(dict(unit=name, obligations=sorted(o['id'] for o in all_obs)), f, indent=1)
+                json.dump(dict(unit=name, obligations=sorted(o['id'] for o in all_obs),
+                               closures={f.name: f.region.info.get('unannotated_closures', 0) for f in fns if f.region is not None}), f, indent=1)
         if not os.path.exists(bpath):
             res['reason'] = 'no baseline recorded for this unit (run bin/vx-rebaseline)'
             return res
         with open(bpath) as f:
-            base = set(json.load(f)['obligations'])
+            bj = json.load(f)
+        base = set(bj['obligations'])
+        base_closures = bj.get('closures')
         res['baseline_n'] = len(base)
-        cur_ids = set(o['id'] for o in all_obs)
+        # obligations of helpers/consts that this run auto-extracted (a change introduced them) are new by construction
+        auto_names = set(f for (_o, f, _r, _s) in auto) | set(f'{s_ or o_}::{f}' for (o_, f, _r, s_) in auto if o_ and o_ != '#const')
+        cur_ids = set(o['id'] for o in all_obs if o['fn'] not in auto_names and o['fn'].split('::')[-1] not in set(f for (o_, f, _r, _s) in auto if o_ == '#const'))
         if cur_ids != base:
             res['reason'] = ('obligation set differs from the recorded baseline (unit edited without rebaselining, or a '
                              'function changed shape): missing ' + ', '.join(sorted(base - cur_ids)[:5]) + ' new ' + ', '.join(sorted(cur_ids - base)[:5]))
             # loop-invariant ids are generic; only treat as undecided when nothing failed
             if not failures:
                 return res
+        # ---- failures that are not trusted as violations (they end in exit 2, never in an alarm): the failing function
+        # gained a closure Verus knows nothing about, or calls a helper this run extracted without a contract — in both
+        # cases the caller's proof fails for lack of a callee contract, whether or not the behaviour changed
+        auto_fn_names = set(f for (o_, f, _r, _s) in auto if o_ != '#const')
+        fn_by_name = {f.name: f for f in fns}
+        untrusted = []
+        for x in failures:
+            fi = fn_by_name.get(x['fn'])
+            why = None
+            if fi is not None and fi.region is not None and base_closures is not None:
+                if fi.region.info.get('unannotated_closures', 0) > base_closures.get(fi.name, 0):
+                    why = 'the function contains a new closure without a contract'
+            if why is None and fi is not None and auto_fn_names:
+                ftxt = '\n'.join(glines[fi.start - 1:fi.end])
+                called = [h for h in auto_fn_names if re.search(r'\b' + re.escape(h) + r'\s*\(', ftxt)]
+                if called:
+                    why = 'the function calls ' + ', '.join(sorted(called)) + ', extracted in this run without a contract'
+            if why:
+                untrusted.append((x, why))
+        # (marked, not dropped: bin/check follows an independent bounded second line for the property where one exists,
+        #  and otherwise reports the failure — an obligation that held on the reference tree and fails now)
+        for (u, w) in untrusted:
+            u['lacks_callee_contract'] = w
+        res['untrusted_failures'] = [dict(obligation=u['obligation'], why=w) for (u, w) in untrusted]
         for x in failures:
             key = x['obligation']
             x['in_baseline'] = key in base or key.rsplit('/', 1)[0] + '/loop#1/invariant' in base
